@@ -66,6 +66,14 @@ FOCI20 = [
 ]
 if N >= 20:
     FOCI = FOCI20
+FOCI24 = [
+ "two cooperating sites that each look fine alone: split the change across two functions or files - one site stops doing something (a reset, a copy, a check, a flush, a bounds test) because 'the other site already does it', while the other site does it only conditionally or slightly differently; or one site widens what it passes on and the other keeps trusting it. Each half must be defensible in review on its own",
+ "a fault at a particular point of a multi-step operation: what the code does when the transport read or write, a callback, a codec or a context ends exactly between two steps (after a header but before its body, after the first of several writes, between Bind and Execute, between CopyInResponse and the first CopyData, between the TLS 'S' and the handshake, between authentication and the first ParameterStatus) - the change alters state handling so that this failure leaves something behind, or recovery carries on wrongly on this or the next connection",
+ "dependency semantics: the change leans on a behaviour of a dependency that does not hold in a corner - pgx/pgtype (type map, codec plan caching, Encode of nil / typed nil / pointers / Valuers, which types have a binary or text form), crypto/tls (Config cloning, lazy handshake, close_notify, ConnectionState), log/slog (attribute evaluation, LogValuer), bufio / bytes / io (Reader contract: n>0 together with an error, zero-length reads, ReadFull vs Read), net (deadlines, Addr types, ErrClosed), sync / context (AfterFunc, Cause, WithoutCancel)",
+ "time and liveness: timeouts, deadlines, idle limits, keep-alives, back-off after Accept errors, context cancellation, grace periods of a graceful shutdown - introduced or changed so that a slow, stalled, very fast or pipelining peer, or a handler that takes long, gets a different outcome with respect to the property",
+]
+if N >= 24:
+    FOCI = FOCI24
 props = [json.loads(l) for l in open('/verif/properties.jsonl')]
 earlier = {}
 for f in sorted(glob.glob('/verif/seeded/*/meta.json')):
